@@ -5,25 +5,27 @@ from decimal import Decimal, getcontext
 import numpy as np
 
 CLAIMED = True
-TECHNIQUE = ("Lean 4 proofs: oracle amplitude identity over C from Mathlib (arccos/arg), circuit-level closed form of U|0> in "
-             "amplitude-function semantics for all n, reflections I_t / I_s identified for all n, Grover recurrence by induction "
-             "for all r; executable Float twin of the angle/repetition code diffed against BlackBoxInitialize; Statevector oracle")
-LEVEL_TEXT = ("Proved for all inputs: C19_oracle (RY(2acos|a|) then RZ(-2arg a) on |0> has flag-0 amplitude exactly a, flag-1 modulus "
-              "sqrt(1-|a|^2), incl. |a|=0,1; and for every n the circuit U on |0..0> gives 2^(-n/2) a_k on (k, flag 0)), "
-              "C19_reflections (coded I_t = sign on flag 0, coded I_s = sign on the all-zero label of wires 0..n, all n), "
-              "C19_rotation (one round = minus rotation by 2 theta on the (good,bad) plane; after r rounds the good coefficient is "
-              "(-1)^r sin((2r+1)theta), all r), C19_sign (global phase pi for odd r cancels (-1)^r), C19_r (model r = floor(pi sqrt(N)/4) "
-              "for unit vectors). Tie: per-amplitude angle lists, r, global phase and the gate-list skeleton of the real "
-              "BlackBoxInitialize(v).definition vs the executable model for nine vector families, n<=5 (quick) / 6 (thorough); the "
-              "Float r-expression vs exact integer arithmetic for n<=64. Oracle: flag-0 column of Statevector(definition) vs "
-              "sin((2r+1)theta) v and the flag-1 norm, n=1..7 (quick) / 8 (thorough).")
+TECHNIQUE = ("Lean 4 proof of the whole amplitude-amplification circuit in amplitude-function semantics (all n, all r, all unit "
+             "vectors): closed form of U|0>, reflections, U^dagger U = U U^dagger = I, linearity, overlap <psi|P0|psi> = 2^-n via the "
+             "Hadamard-layer sum, induction over the rounds, Grover recurrence over R, arccos/arg identities over C from Mathlib; "
+             "executable Float twin of the angle/repetition code diffed against BlackBoxInitialize; Statevector oracle")
+LEVEL_TEXT = ("Full proof for the model (C19_amplification): for every n, every r and every amplitude list with sum |a_k|^2 = 1, the "
+              "modelled circuit (angles 2 arccos(clip|a_k|), -2 angle(a_k) evaluated over R; r passes of U, I_t, U^dagger, I_s; final U; "
+              "global phase pi iff r odd) maps |0..0> to sin((2r+1)theta) a_k on every flag-0 label, theta = arcsin(2^(-n/2)), and to "
+              "cos((2r+1)theta)/cos(theta) times the flag-1 part of U|0> on flag-1 labels; zero amplitudes and modulus-one amplitudes "
+              "included. Supporting theorems: C19_oracle (one amplitude: flag-0 entry exactly a, flag-1 modulus sqrt(1-|a|^2)), "
+              "C19_oracle_circuit (U|0..0> for all n), C19_reflections (coded I_t, I_s for all n), C19_unitary, C19_rotation (2x2 "
+              "recurrence, all r), C19_sign, C19_r (model r = floor(pi sqrt(N)/4) for unit vectors). Tie: per-amplitude angle lists, r, "
+              "global phase and the gate-list skeleton of the real BlackBoxInitialize(v).definition vs the executable model for nine "
+              "vector families, n<=5 (quick) / 6 (thorough); the Float r-expression vs exact integer arithmetic for n<=64. Oracle: "
+              "flag-0 column of Statevector(definition) vs sin((2r+1)theta) v and the flag-1 weight, n=1..7 (quick) / 8 (thorough).")
 LEVEL_NOTE = ("Trusted: Lean kernel (standard axioms); qiskit UCRYGate/UCRZGate (= ideal multiplexers, target first, little-endian "
               "controls), their .inverse(), UnitaryGate.control(ctrl_state=0), HGate, global_phase (all validated numerically each run); "
               "IEEE floats vs exact reals (np.abs/arccos/angle compared to 1e-9, relaxed near |a|=1 where arccos is ill-conditioned); "
               "model <-> code beyond the explored sizes (the loop is uniform in n).")
 LEAN_TARGETS = ["QclibModel.Props.C19"]
 THEOREMS = ["Qclib.C19_oracle", "Qclib.C19_oracle_circuit", "Qclib.C19_reflections", "Qclib.C19_rotation",
-            "Qclib.C19_sign", "Qclib.C19_r"]
+            "Qclib.C19_unitary", "Qclib.C19_amplification", "Qclib.C19_sign", "Qclib.C19_r"]
 TRUSTED = [
     "qiskit UCRYGate/UCRZGate(angles) on [flag, idx...] are the block-diagonal multiplexers muxIdeal (validated numerically each run)",
     "qiskit Gate.inverse() of UCRY/UCRZ = multiplexer of negated angles; UnitaryGate([[-1,0],[0,1]]).control(n, ctrl_state=0) = "
@@ -31,8 +33,9 @@ TRUSTED = [
     "float: theta=2*arccos(clip(|a|)), phi=-2*angle(a), r=int(pi/4*sqrt(N)/norm) compared with the model's Float evaluation",
 ]
 ASSUMPTIONS = ["exact real/complex arithmetic in the theorems; implementation compared to 1e-7 (oracle) / 1e-9 (tie)",
-               "the linear-algebra step from the two proved reflections to the 2x2 recurrence (U U^dagger = I on the plane, "
-               "<psi|P psi> = sin^2 theta) is stated as the hypotheses of C19_rotation"]
+               "the input register starts in |0..0> (all wires, including any wire above n)",
+               "the total flag-1 weight cos^2((2r+1)theta) is proved pointwise (proportionality to the flag-1 part of U|0>), "
+               "its sum over labels is only checked numerically"]
 RULE = ("tie: (n, family, vector) whose angle lists, r, phase and gate skeleton were diffed against the Lean model; "
         "oracle: Statevector(BlackBoxInitialize(v).definition) flag-0 column vs closed form; non-trivial = n>=1 and the "
         "vector is not the probe duplicate; distinct by (n, family, draw)")
@@ -190,7 +193,7 @@ def oracle_case(ctx, n, fam, v, key, circ=None):
     N = 2 ** n
     rep = {"call": "qclib.state_preparation.blackbox.BlackBoxInitialize", "n": n, "family": fam, "vector": vec_payload(v)}
     absmax = max(abs(a) for a in v)
-    key = ("blackbox.arccos-nan:abs>1:" if absmax > 1.0 else "blackbox.flag0:") + key
+    key = "blackbox.flag0:" + key + (":abs>1" if absmax > 1.0 else "")
     try:
         if circ is None:
             circ = build(v)
@@ -283,7 +286,7 @@ def run(ctx, n_tie=None, n_or=None, draws=None):
     reps_tie(ctx)
     n_tie = n_tie or (5 if ctx.quick else 6)
     n_or = n_or or (7 if ctx.quick else 8)
-    draws = draws or (1 if ctx.quick else 3)
+    draws = draws or (2 if ctx.quick else 4)
     # the concrete input of the (fixed) arccos-NaN defect: must pass
     oracle_case(ctx, 1, "probe", PROBE, "n=1:probe", circ=tie_case(ctx, 1, "probe", PROBE))
     for n in range(1, n_or + 1):
@@ -317,4 +320,4 @@ def search(ctx, hints):
 def replay(ctx, payload):
     r = payload["replay"]
     v = [complex(a, b) for a, b in r["vector"]]
-    oracle_case(ctx, r["n"], r.get("family", "replay"), v, payload["key"].replace("blackbox.arccos-nan:abs>1:", "").replace("blackbox.flag0:", ""))
+    oracle_case(ctx, r["n"], r.get("family", "replay"), v, payload["key"].replace("blackbox.flag0:", "").replace(":abs>1", ""))
